@@ -95,7 +95,7 @@ var plans = map[string]*plan{
 	},
 	"C03": {
 		ID: "C03", Engine: "B", Level: "exploration",
-		Stages: []stage{{"C03.nofault", 120, 3000}, {"C03.file", 100, 3000}, {"C03", 360, 12000}},
+		Stages: []stage{{"C03.nofault", 120, 3000}, {"C03.file", 100, 3000}, {"C03.ssh", 100, 3000}, {"C03", 360, 12000}},
 		Rule:   "each scenario = one tape: a history in a clone (writes to LFS and non-LFS paths, duplicates, deletes, renames, branches, merges, tags, orphan branches, tracking changes, dated commits) interleaved with pushes (git push branch / --all / --tags / --force / --delete, second remote, git lfs push ref / --all), local objects lost before a push (with/without a copy on the server), allowincompletepush on/off, batch size 1/2/3/100, concurrency; server faults keyed by request (batch 5xx/429, PUT 4xx/5xx/422/stored-reply-lost, verify 4xx/5xx, per-object errors); stage C03.file runs the same histories against file:// remotes. After every push that exits 0 and moved a remote ref, git plumbing on the bare remote lists every reachable pointer blob and the server store must hold each with matching SHA-256. Every scenario is non-trivial; distinct = distinct choice trace + process outcomes.",
 		Real:   realB, Stub: stubB,
 		Assume: []string{"ground truth about referenced pointers comes from git rev-list/cat-file and the harness's own strict pointer reader, never from git-lfs", "stage C03.file: the remote is a file:// URL (git-lfs's own standalone agent is the 'server', its store is <remote>/lfs/objects; optionally next to a second remote that is file:// too or served over HTTP); no transfer faults exist there, the fault space is lost local objects, remote-side branch deletion with garbage collection and stale tracking refs", "damaged (as opposed to absent) local objects are outside the statement's quantifier and not generated"},
